@@ -59,6 +59,15 @@ func helper2(depth int) {
 	hook.Fault("in-helper2")
 }
 
+// a function with its own deferred call that returns normally
+func withInnerDefer(depth int) (n int) {
+	defer func() {
+		n += 1000
+	}()
+	hook.Fault("inner-defer-body")
+	return depth
+}
+
 func nested(depth int) (n int) {
 	defer func() {
 		r := recover()
@@ -77,7 +86,25 @@ func node(depth int) (res int, err error) {
 	hook.Fault("enter")
 	nd := hook.Choose(4)
 	for i := 0; i < nd; i++ {
-		switch hook.Choose(10) {
+		switch hook.Choose(12) {
+		case 10:
+			// recover only after another function ran (and finished) its own deferred call
+			defer func() {
+				v := withInnerDefer(depth)
+				r := recover()
+				hook.Ev("d-late-recover", depth, v, r)
+				if r != nil {
+					res = v
+				}
+			}()
+		case 11:
+			// the same through a helper with a loop of defers, recover afterwards by a second defer
+			defer func() {
+				hook.Ev("d-second-recover", depth, recover())
+			}()
+			defer func() {
+				hook.Ev("d-calls-inner", depth, withInnerDefer(depth+1))
+			}()
 		case 0:
 			defer func() {
 				hook.Ev("d-plain", depth)
